@@ -903,10 +903,25 @@ def run_ko(ctx: Ctx, only: Optional[str] = None, n: Optional[int] = None):
                 ctx.fail(kind, case, what)
 
 
-KNOWN = {
-    "reset-while-reader-in-slow-source":
-        lambda f: f.kind in ("C12:two_threads_in_source", "C12:abandoned_reader_drives_source"),
-}
+def _slow_reset_region(f) -> bool:
+    """The known finding is ONLY: a source whose next() takes longer than the two 0.5 s joins of Prefetcher.reset()
+    (shutdown + __del__), so the old reader is still inside it when the source is reset.  The same symptom with a
+    faster source is a different defect and must be reported."""
+    if f.kind not in ("C12:two_threads_in_source", "C12:abandoned_reader_drives_source"):
+        return False
+    inp = f.inp if isinstance(f.inp, dict) else {}
+    case = inp.get("case", inp)
+    try:
+        if float(case.get("delay", 0.0)) > 1.0:
+            return True
+        # adversarial schedules let ANY timed wait give up (a reader starved for longer than the joins): the same
+        # finding - the joins in reset() are timed - reached without a slow source
+        return bool((case.get("sched") or {}).get("adv"))
+    except Exception:
+        return False
+
+
+KNOWN = {"reset-while-reader-in-slow-source": _slow_reset_region}
 
 
 def replay(ctx: Ctx, payload) -> Tuple[bool, str]:
